@@ -18,50 +18,95 @@ fn edge2(r: &mut Rng) -> (Pt2, Pt2) {
     (s, s + d)
 }
 
+/// the items of a scene: the first call wraps its item in a one-child union, every later call builds union [scene so far, item]
+fn scene_parts(t: &Scad) -> Vec<&Scad> {
+    if matches!(t.op, ScadOp::Union) && t.children.len() == 2 { let mut v = scene_parts(&t.children[0]); v.push(&t.children[1]); v }
+    else if matches!(t.op, ScadOp::Union) && t.children.len() == 1 { vec![&t.children[0]] } else { vec![t] }
+}
+fn edge_part_check(part: &Scad, edges: &[(Pt3, Pt3)], radius: f64) -> Option<String> {
+    if !matches!(part.op, ScadOp::Color { .. }) { return Some("the added item is not a colour group".into()); }
+    if part.children.len() != edges.len() { return Some(format!("{} cylinders for {} edges", part.children.len(), edges.len())); }
+    for (c, (s, e)) in part.children.iter().zip(edges.iter()) {
+        if let ScadOp::Polyhedron { points, .. } = &c.op {
+            let n = points.len() / 2; if n == 0 { return Some("empty cylinder".into()); }
+            let cen = |ps: &[Pt3]| { let mut a = Pt3::new(0.0, 0.0, 0.0); for p in ps { a = a + *p; } a / ps.len() as f64 };
+            let (b, t) = (cen(&points[..n]), cen(&points[n..]));
+            let scale = 1.0 + s.len() + e.len() + radius;
+            if (b - *s).len() > 1e-7 * scale || (t - *e).len() > 1e-7 * scale { return Some(format!("cylinder axis runs from {:?} to {:?} but the edge from {:?} to {:?}", b, t, s, e)); }
+            for p in &points[..n] { if ((*p - *s).len() - radius).abs() > 1e-7 * scale { return Some(format!("bottom ring point at distance {} from the start, edge radius {}", (*p - *s).len(), radius)); } }
+        } else { return Some("an edge item is not a polyhedron".into()); }
+    }
+    None
+}
+
 pub fn emit(seed: u64, n: usize, max_ops: u64) {
     let mut r = Rng::new(seed);
     let (colors, names) = textgen::all_colors();
     for case in 0..n {
         let pr = r.cad().abs() + 0.01; let er = r.cad().abs() + 0.01; let seg = 4 + r.below(9);
         let nops = if case % 11 == 0 { 0 } else { 1 + r.below(max_ops) };
-        let mut v = Viewer::new(pr, er, seg);
+        let mut ops: Vec<Box<dyn Fn(&mut Viewer)>> = Vec::new();
+        let mut edges_of: Vec<Option<Vec<(Pt3, Pt3)>>> = Vec::new();
         let mut terms: Vec<String> = Vec::new();
-        clear_trig();
         for _ in 0..nops {
             let ci = r.below(colors.len() as u64) as usize; let col = colors[ci]; let c = format!("{}%N", ci);
             match r.below(13) {
-                0 => { let p = g2(&mut r); v.add_pt2(p, col); terms.push(format!("VPt2 {} {}", t2(p), c)); }
-                1 => { let p = g3(&mut r); v.add_pt3(p, col); terms.push(format!("VPt3 {} {}", t3(p), c)); }
-                2 => { let k = r.below(4); let l: Vec<Pt2> = (0..k).map(|_| g2(&mut r)).collect(); v.add_pt2s(&Pt2s::from_pt2s(l.clone()), col);
+                0 => { let p = g2(&mut r); ops.push(Box::new(move |v: &mut Viewer| v.add_pt2(p, col))); edges_of.push(None); terms.push(format!("VPt2 {} {}", t2(p), c)); }
+                1 => { let p = g3(&mut r); ops.push(Box::new(move |v: &mut Viewer| v.add_pt3(p, col))); edges_of.push(None); terms.push(format!("VPt3 {} {}", t3(p), c)); }
+                2 => { let k = r.below(4); let l: Vec<Pt2> = (0..k).map(|_| g2(&mut r)).collect(); { let l2 = l.clone(); ops.push(Box::new(move |v: &mut Viewer| v.add_pt2s(&Pt2s::from_pt2s(l2.clone()), col))); edges_of.push(None); }
                        terms.push(format!("VPt2s [{}] {}", l.iter().map(|p| t2(*p)).collect::<Vec<_>>().join("; "), c)); }
-                3 => { let k = r.below(4); let l: Vec<Pt3> = (0..k).map(|_| g3(&mut r)).collect(); v.add_pt3s(&Pt3s::from_pt3s(l.clone()), col);
+                3 => { let k = r.below(4); let l: Vec<Pt3> = (0..k).map(|_| g3(&mut r)).collect(); { let l2 = l.clone(); ops.push(Box::new(move |v: &mut Viewer| v.add_pt3s(&Pt3s::from_pt3s(l2.clone()), col))); edges_of.push(None); }
                        terms.push(format!("VPt3s [{}] {}", l.iter().map(|p| t3(*p)).collect::<Vec<_>>().join("; "), c)); }
-                4 => { let k = r.below(3); let l: Vec<(Pt2, Pt2)> = (0..k).map(|_| edge2(&mut r)).collect(); v.add_lines2d(&l, col);
+                4 => { let k = r.below(3); let l: Vec<(Pt2, Pt2)> = (0..k).map(|_| edge2(&mut r)).collect(); { let l2 = l.clone(); edges_of.push(Some(l.iter().map(|e| (e.0.as_pt3(0.0), e.1.as_pt3(0.0))).collect())); ops.push(Box::new(move |v: &mut Viewer| v.add_lines2d(&l2, col))); }
                        terms.push(format!("VLines2 [{}] {}", l.iter().map(|e| format!("({}, {})", t2(e.0), t2(e.1))).collect::<Vec<_>>().join("; "), c)); }
-                5 => { let k = r.below(3); let l: Vec<(Pt3, Pt3)> = (0..k).map(|_| edge3(&mut r)).collect(); v.add_lines3d(&l, col);
+                5 => { let k = r.below(3); let l: Vec<(Pt3, Pt3)> = (0..k).map(|_| edge3(&mut r)).collect(); { let l2 = l.clone(); edges_of.push(Some(l.clone())); ops.push(Box::new(move |v: &mut Viewer| v.add_lines3d(&l2, col))); }
                        terms.push(format!("VLines3 [{}] {}", l.iter().map(|e| format!("({}, {})", t3(e.0), t3(e.1))).collect::<Vec<_>>().join("; "), c)); }
-                6 => { let (s, cc, e, sg) = (g2(&mut r), g2(&mut r), g2(&mut r), 1 + r.below(4)); v.add_quadratic_bezier2d(&QuadraticBezier2D::new(s, cc, e, sg));
+                6 => { let (s, cc, e, sg) = (g2(&mut r), g2(&mut r), g2(&mut r), 1 + r.below(4)); ops.push(Box::new(move |v: &mut Viewer| v.add_quadratic_bezier2d(&QuadraticBezier2D::new(s, cc, e, sg)))); edges_of.push(None);
                        terms.push(format!("VQuad2 {} {} {} {}%Z", t2(s), t2(cc), t2(e), sg)); }
-                7 => { let (s, cc, e, sg) = (g3(&mut r), g3(&mut r), g3(&mut r), 1 + r.below(4)); v.add_quadratic_bezier3d(&QuadraticBezier3D::new(s, cc, e, sg));
+                7 => { let (s, cc, e, sg) = (g3(&mut r), g3(&mut r), g3(&mut r), 1 + r.below(4)); ops.push(Box::new(move |v: &mut Viewer| v.add_quadratic_bezier3d(&QuadraticBezier3D::new(s, cc, e, sg)))); edges_of.push(None);
                        terms.push(format!("VQuad3 {} {} {} {}%Z", t3(s), t3(cc), t3(e), sg)); }
-                8 => { let (s, c1, c2, e, sg) = (g2(&mut r), g2(&mut r), g2(&mut r), g2(&mut r), 1 + r.below(4)); v.add_cubic_bezier2d(&CubicBezier2D::new(s, c1, c2, e, sg));
+                8 => { let (s, c1, c2, e, sg) = (g2(&mut r), g2(&mut r), g2(&mut r), g2(&mut r), 1 + r.below(4)); ops.push(Box::new(move |v: &mut Viewer| v.add_cubic_bezier2d(&CubicBezier2D::new(s, c1, c2, e, sg)))); edges_of.push(None);
                        terms.push(format!("VCubic2 {} {} {} {} {}%Z", t2(s), t2(c1), t2(c2), t2(e), sg)); }
-                9 => { let (s, c1, c2, e, sg) = (g3(&mut r), g3(&mut r), g3(&mut r), g3(&mut r), 1 + r.below(4)); v.add_cubic_bezier3d(&CubicBezier3D::new(s, c1, c2, e, sg));
+                9 => { let (s, c1, c2, e, sg) = (g3(&mut r), g3(&mut r), g3(&mut r), g3(&mut r), 1 + r.below(4)); ops.push(Box::new(move |v: &mut Viewer| v.add_cubic_bezier3d(&CubicBezier3D::new(s, c1, c2, e, sg)))); edges_of.push(None);
                        terms.push(format!("VCubic3 {} {} {} {} {}%Z", t3(s), t3(c1), t3(c2), t3(e), sg)); }
                 10 => { let mut ch = CubicBezierChain2D::new(g2(&mut r), g2(&mut r), g2(&mut r), g2(&mut r), 1 + r.below(3));
                         for _ in 0..r.below(3) { ch.add(r.cad().abs() + 0.1, g2(&mut r), g2(&mut r), 1 + r.below(3)); }
                         if r.coin() { ch.close(r.cad().abs() + 0.1, g2(&mut r), r.cad().abs() + 0.1, 1 + r.below(3)); }
-                        v.add_cubic_bezier_chain2d(&ch);
+                        { let ch2 = ch.clone(); ops.push(Box::new(move |v: &mut Viewer| v.add_cubic_bezier_chain2d(&ch2))); edges_of.push(None); }
                         terms.push(format!("VChain2 [{}]", ch.curves.iter().map(|c| format!("Curve2 {} {} {} {} {}%Z", t2(c.start), t2(c.control1), t2(c.control2), t2(c.end), c.segments)).collect::<Vec<_>>().join("; "))); }
                 11 => { let mut ch = CubicBezierChain3D::new(g3(&mut r), g3(&mut r), g3(&mut r), g3(&mut r), 1 + r.below(3));
                         for _ in 0..r.below(3) { ch.add(r.cad().abs() + 0.1, g3(&mut r), g3(&mut r), 1 + r.below(3)); }
-                        v.add_cubic_bezier_chain3d(&ch);
+                        { let ch2 = ch.clone(); ops.push(Box::new(move |v: &mut Viewer| v.add_cubic_bezier_chain3d(&ch2))); edges_of.push(None); }
                         terms.push(format!("VChain3 [{}]", ch.curves.iter().map(|c| format!("Curve3 {} {} {} {} {}%Z", t3(c.start), t3(c.control1), t3(c.control2), t3(c.end), c.segments)).collect::<Vec<_>>().join("; "))); }
-                _ => { let st = BezierStar::new(2 + r.below(2), 3.0, 0.8, 7.0, 0.9, 1 + r.below(2)); v.add_bezier_star(&st);
+                _ => { let st = BezierStar::new(2 + r.below(2), 3.0, 0.8, 7.0, 0.9, 1 + r.below(2)); { let st2 = st.clone(); ops.push(Box::new(move |v: &mut Viewer| v.add_bezier_star(&st2))); edges_of.push(None); }
                        terms.push(format!("VChain2 [{}]", st.chain.curves.iter().map(|c| format!("Curve2 {} {} {} {} {}%Z", t2(c.start), t2(c.control1), t2(c.control2), t2(c.end), c.segments)).collect::<Vec<_>>().join("; "))); }
             }
         }
-        let res = catch(move || v.into_scad());
+        let run_prefix = |k: usize| -> Option<Scad> { let mut v = Viewer::new(pr, er, seg); for op in ops.iter().take(k) { op(&mut v); } catch(std::panic::AssertUnwindSafe(move || v.into_scad())) };
+        // oracle on the implementation itself: the scene after k calls consists of the parts of the scene after k-1 calls, in order, plus new ones;
+        // the part added by an edge call is one group with one cylinder per edge running from the start to the end of the edge
+        let mut prev: Vec<String> = Vec::new();
+        let mut trig_keep: Vec<String> = Vec::new();
+        for k in 1..=ops.len() {
+            match run_prefix(k) {
+                None => { println!("@@ORACLE@@ scene_after_call_is_a_tree call {} of {}: into_scad panics", k, ops.len()); break; }
+                Some(t) => {
+                    let parts = scene_parts(&t);
+                    let ps: Vec<String> = parts.iter().map(|p| format!("{}", p)).collect();
+                    if ps.len() <= prev.len() || ps[..prev.len()] != prev[..] {
+                        println!("@@ORACLE@@ earlier_items_kept call {} of {}: {} parts before, {} after, earlier parts {}", k, ops.len(), prev.len(), ps.len(),
+                                 if ps.len() >= prev.len() && ps[..prev.len()] == prev[..] { "kept" } else { "changed or dropped" });
+                    }
+                    if let Some(es) = &edges_of[k - 1] {
+                        if let Some(msg) = edge_part_check(parts.last().unwrap(), es, er) { println!("@@ORACLE@@ edge_runs_from_start_to_end call {}: {}", k, msg); }
+                    }
+                    prev = ps;
+                }
+            }
+        }
+        let _ = &mut trig_keep;
+        clear_trig();
+        let res = run_prefix(ops.len());
         let tt = trig_table();
         let tree = match &res { Some(t) => format!("(Some {})", tree_term(t, &names)), None => "None".to_string() };
         println!("@@CASE@@ V\n({}, {}, {}%Z, [{}], {}, {})", f(pr), f(er), seg, terms.join("; "), tree, tt);
